@@ -328,6 +328,39 @@ func TestC17(t *testing.T) {
 				}
 				step(model.Op{Kind: "AddIndex", Table: s.Table, IndexSchema: &ix, IndexAttrs: attrs})
 			},
+			"refusedAddIndex": func(rt *rapid.T) {
+				// an UpdateTable that is refused (the index name is taken, or a key attribute is undefined) although it
+				// carries attribute definitions - a new attribute, or another type for one
+				// that no key uses: whatever a client keeps of them, the other keeps too
+				t := w.m.Tables[s.Table]
+				if t == nil || rapid.IntRange(0, 3).Draw(rt, "reallyRefusedAddIndex") != 2 {
+					return
+				}
+				var globals []model.IndexSchema
+				for _, x := range t.Schema.Indexes {
+					if x.Global {
+						globals = append(globals, x)
+					}
+				}
+				if len(globals) == 0 {
+					return
+				}
+				ix := rapid.SampledFrom(globals).Draw(rt, "takenIx")
+				a := rapid.SampledFrom([]string{"g1", "g2", "r1", "g3"}).Draw(rt, "refusedAttr")
+				inUse := a == t.Schema.Hash || a == t.Schema.Range
+				for _, x := range t.Schema.Indexes {
+					inUse = inUse || x.Hash == a || x.Range == a
+				}
+				if inUse {
+					return
+				}
+				nix := model.IndexSchema{Name: ix.Name, Global: true, Hash: a}
+				if rapid.Bool().Draw(rt, "refusedForUndefinedRange") {
+					// ... or refused because its sort key attribute is defined nowhere
+					nix = model.IndexSchema{Name: "refused1", Global: true, Hash: a, Range: "nodef"}
+				}
+				step(model.Op{Kind: "AddIndex", Table: s.Table, IndexSchema: &nix, IndexAttrs: map[string]string{a: rapid.SampledFrom([]string{"S", "N"}).Draw(rt, "refusedAttrType")}})
+			},
 			"delIndex": func(rt *rapid.T) {
 				t := w.m.Tables[s.Table]
 				if t == nil || rapid.IntRange(0, 2).Draw(rt, "reallyDelIndex") != 1 {
